@@ -116,7 +116,11 @@ where
 
         let mut polynomial_iterator = polynomial.iter();
 
-        (0..points.len()).for_each(|_| {
+        // A polynomial with fewer coefficients than evaluation points is its own remainder:
+        // the missing high-order coefficients are zero.
+        let missing = points.len().saturating_sub(polynomial.len());
+        (0..missing).for_each(|_| state.push_back(E::ScalarField::zero()));
+        (missing..points.len()).for_each(|_| {
             state.push_back(*polynomial_iterator.next().unwrap().borrow());
         });
 
